@@ -7,6 +7,12 @@
 (*   {"ev":"publish","r":..,"u":{"s":..,"n":..}}   LogPin on replica r        *)
 (*   {"ev":"trust"|"distrust","r":..,"p":..}       Trust/Distrust on r        *)
 (*   {"ev":"observe","r":..,"pins":[{"s","n"}..]}  r's pinset after settling  *)
+(*   {"ev":"addpeer","r":..,"p":..}                Consensus.AddPeer(p) on r  *)
+(*   {"ev":"forge","as":..,"of":..,"sig":"none"|"bad"}  raw message naming    *)
+(*        `as` as author with the heads of `of`, sent by a third party        *)
+(*   {"ev":"setup"|"window"|"ready","r":..}  start-up of a replica listed in  *)
+(*        "down" of the init line: setup() begun / go-ds-crdt reading its     *)
+(*        heads (subscribed, not running) / component ready                   *)
 (* (1) TLC searches for a behaviour of RPCAuthPubsub (deliveries and          *)
 (*     rebroadcasts are silent steps) that explains every line: the trace is  *)
 (*     accepted iff the last line is consumed (invariant NotDone violated).   *)
@@ -42,11 +48,11 @@ PBad == {i \in 1..N : Lines[i].ev = "observe" /\ ~PinsetOK(EverAt[i], Lines[i].r
 \* (rebroadcast interval far beyond the script), at any time (rebroadcast of the current heads).
 Val(tr, r, signer) == tr[r].all \/ signer = r \/ signer \in tr[r].set
 RECURSIVE Sat(_)
-Sat(st) ==
-    LET ms == st.msgs \cup {[from |-> r, content |-> st.dag[r]] : r \in {q \in Reps \ st.quiet : st.dag[q] # {}}}
-        dg == [r \in Reps |-> st.dag[r] \cup
-                  UNION {m.content : m \in {x \in ms : x.from # r /\ Val(st.trust, r, x.from)}}]
-    IN IF dg = st.dag /\ ms = st.msgs THEN st ELSE Sat([st EXCEPT !.dag = dg, !.msgs = ms])
+Sat(mx) ==
+    LET ms == mx.msgs \cup {[from |-> r, content |-> mx.dag[r]] : r \in {q \in Reps \ mx.quiet : mx.dag[q] # {}}}
+        dg == [r \in Reps |-> mx.dag[r] \cup
+                  UNION {m.content : m \in {x \in ms : x.from # r /\ Val(mx.trust, r, x.from)}}]
+    IN IF dg = mx.dag /\ ms = mx.msgs THEN mx ELSE Sat([mx EXCEPT !.dag = dg, !.msgs = ms])
 NoDag == [r \in Reps |-> {}]
 MaxAt[i \in 0..N] ==
     IF i = 0 THEN [trust |-> [r \in Reps |-> [all |-> FALSE, set |-> {}]], dag |-> NoDag, msgs |-> {}, quiet |-> {}]
@@ -71,32 +77,51 @@ ASSUME ndJsonSerialize(IOEnv.VERDICT_FILE,
            badsigner |-> PBadSigner, short |-> PShort]>>)
 
 \* ---- (1) behaviour search
-VARIABLES l, quiet
-tvars == <<pvars, l, quiet>>
+VARIABLES l, quiet, began
+tvars == <<pvars, l, quiet, began>>
 
 Mark == TLCSet(1, IF TLCGet(1) < l THEN l ELSE TLCGet(1))
+DownOf(e) == IF "down" \in DOMAIN e THEN Rng(e.down) ELSE {}
 
-Init == /\ l = 2 /\ Lines[1].ev = "init" /\ InitWith(TrustOf(Lines[1])) /\ TLCSet(1, 1)
-        /\ quiet = Rng(Lines[1].quiet)
+Init == /\ l = 2 /\ Lines[1].ev = "init" /\ InitWith(TrustOf(Lines[1]), DownOf(Lines[1])) /\ TLCSet(1, 1)
+        /\ quiet = Rng(Lines[1].quiet) /\ began = {}
 
 Cur == Lines[l]
+Step == l' = l + 1 /\ Mark
 TReset ==
     /\ l <= N /\ Cur.ev = "init"
     /\ trust' = TrustOf(Cur) /\ ever' = EverOf(TrustOf(Cur))
     /\ dag' = [r \in Reps |-> {}] /\ msgs' = {} /\ npub' = 0 /\ nact' = 0
-    /\ quiet' = Rng(Cur.quiet)
-    /\ l' = l + 1 /\ Mark
-TPublish  == l <= N /\ Cur.ev = "publish"  /\ Publish(Cur.r, [s |-> Cur.u.s, n |-> Cur.u.n]) /\ l' = l + 1 /\ Mark /\ UNCHANGED quiet
-TTrust    == l <= N /\ Cur.ev = "trust"    /\ Trust(Cur.r, Cur.p)    /\ l' = l + 1 /\ Mark /\ UNCHANGED quiet
-TDistrust == l <= N /\ Cur.ev = "distrust" /\ Distrust(Cur.r, Cur.p) /\ l' = l + 1 /\ Mark /\ UNCHANGED quiet
+    /\ st' = [r \in Reps |-> IF r \in DownOf(Cur) THEN Down ELSE Up] /\ buf' = [r \in Reps |-> {}]
+    /\ quiet' = Rng(Cur.quiet) /\ began' = {}
+    /\ Step
+TPublish  == l <= N /\ Cur.ev = "publish"  /\ Publish(Cur.r, [s |-> Cur.u.s, n |-> Cur.u.n]) /\ Step /\ UNCHANGED <<quiet, began>>
+TTrust    == l <= N /\ Cur.ev = "trust"    /\ Trust(Cur.r, Cur.p)    /\ Step /\ UNCHANGED <<quiet, began>>
+TDistrust == l <= N /\ Cur.ev = "distrust" /\ Distrust(Cur.r, Cur.p) /\ Step /\ UNCHANGED <<quiet, began>>
+\* Consensus.AddPeer(p) called on r: what the open join handshake does to the component
+TAddPeer  == l <= N /\ Cur.ev = "addpeer"  /\ JoinHandshake(Cur.r, Cur.p) /\ Step /\ UNCHANGED <<quiet, began>>
+\* a raw gossipsub message naming Cur.as as author, carrying the heads of Cur.of, unsigned
+\* ("none") or with a signature that cannot verify ("bad"), was sent to the replicas
+TForge    == l <= N /\ Cur.ev = "forge" /\ Forge(Cur.as, Cur.of, Cur.sig) /\ Step /\ UNCHANGED <<quiet, began>>
+\* setup() of a replica that was down begins (SetClient)
+TSetup    == l <= N /\ Cur.ev = "setup" /\ ~st[Cur.r].run /\ began' = began \cup {Cur.r}
+             /\ Step /\ UNCHANGED <<pvars, quiet>>
+\* the driver saw go-ds-crdt read its heads: subscribed, crdt not running yet
+TWindow   == l <= N /\ Cur.ev = "window" /\ st[Cur.r].sub /\ ~st[Cur.r].run
+             /\ Step /\ UNCHANGED <<pvars, quiet, began>>
+TReady    == l <= N /\ Cur.ev = "ready" /\ st[Cur.r].run /\ st[Cur.r].val /\ st[Cur.r].sub
+             /\ Step /\ UNCHANGED <<pvars, quiet, began>>
 TObserve  == /\ l <= N /\ Cur.ev = "observe"
              /\ dag[Cur.r] = {[s |-> u.s, n |-> u.n] : u \in Rng(Cur.pins)}
-             /\ UNCHANGED <<pvars, quiet>> /\ l' = l + 1 /\ Mark
+             /\ Step /\ UNCHANGED <<pvars, quiet, began>>
 Silent    == /\ l <= N
-             /\ \/ \E m \in msgs, r \in Reps : Deliver(m, r)
+             /\ \/ \E m \in msgs, r \in Reps : Deliver(m, r) \/ Receive(m, r)
+                \/ \E r \in Reps : \E m \in buf[r] : Apply(m, r)
                 \/ \E r \in Reps \ quiet : Rebroadcast(r)
-             /\ UNCHANGED <<l, quiet>>
-Next == TReset \/ TPublish \/ TTrust \/ TDistrust \/ TObserve \/ Silent
+                \/ \E r \in began, k \in {"val", "sub", "run"} : StartStep(r, k)
+             /\ UNCHANGED <<l, quiet, began>>
+Next == TReset \/ TPublish \/ TTrust \/ TDistrust \/ TAddPeer \/ TForge \/ TSetup \/ TWindow \/ TReady
+        \/ TObserve \/ Silent
 Spec == Init /\ [][Next]_tvars
 
 \* violated exactly when every line has been explained
